@@ -489,6 +489,14 @@ def run(ctx):
                 continue
             ne += 1
             path = find_path_avoiding(fn.cfg, reports, lambda e: e is r)
+            if path is not None:
+                # only a feasible path counts (`r != OK` taken, then the `case OK:` arm of a switch over r, is not one)
+                from ..rules.flow import find_feasible_path_avoiding
+                path, capped = find_feasible_path_avoiding(fn, reports, lambda e: e is r, enums=P.enums)
+                if capped:
+                    ctx.inconclusive("R6.error", "error-report|%s:%s|L%s" % (P.rel(fn.file), fn.name, _ret_ord(fn, r)), P.where(r),
+                                     "the error exit is preceded by an error report", "path search cap reached")
+                    continue
             ctx.ob("R6.error", "error-report|%s:%s|L%s" % (P.rel(fn.file), fn.name, _ret_ord(fn, r)), P.where(r),
                    "the error exit `%s` is preceded by CARQUET_SET_ERROR or a callee that received the error object" % src(r)[:50],
                    path is None, "path: %s" % describe_path(fn, fn.cfg, path)[-3:] if path else "")
